@@ -1,0 +1,12 @@
+//go:build verif
+
+// Package storage: machine-checked contracts (comment-only; read by /verif/govc).
+package storage
+
+// Crash condition of the state writer over the file system effect model (see /verif/DESIGN.md 2.8):
+// whatever instant the process dies at, the state file holds the complete previous content (or is absent as
+// before) or the complete new content - never a partial file.
+//@ func JSONFileStorage.Stop
+//@   crash_invariant state-file-old-or-new [C18]: fs(s.filename) == old(fs(s.filename)) || fs(s.filename) == fs_written
+//@   ensures saved [C18]: result == nil ==> fs(s.filename) == fs_written
+//@   ensures failed-keeps-a-complete-file [C18]: result != nil ==> fs(s.filename) == old(fs(s.filename)) || fs(s.filename) == fs_written
